@@ -302,6 +302,17 @@ fn front_toks(f: &HttpFrontend) -> [i128; 8] {
 
 // certificates -------------------------------------------------------------
 
+/// the `rest` of a certificate: bits 0-2 chain / key / versions, then the expiration override that comes with
+/// it in the request (AddCertificate.expired_at, ReplaceCertificate.new_expired_at): none / 7 / 4200000000
+pub const N_CERT_REST: i128 = 24;
+fn cert_expiry(rest: i128) -> Option<i64> {
+    match (rest / 8) % 3 {
+        0 => None,
+        1 => Some(7),
+        _ => Some(4_200_000_000),
+    }
+}
+
 pub struct CertPool {
     pub pems: Vec<String>,
     pub names: Vec<String>,
@@ -362,11 +373,13 @@ impl CertPool {
             names: names.iter().map(|n| self.name(*n)).collect(),
         }
     }
-    /// stored certificate -> [pem rest nnames names..]
-    fn cert_toks(&self, c: &CertificateAndKey) -> Vec<i128> {
+    /// stored certificate with its recorded expiration override -> [pem rest nnames names..]
+    fn cert_toks(&self, c: &CertificateAndKey, expired_at: Option<i64>) -> Vec<i128> {
         let pem = self.pems.iter().position(|p| *p == c.certificate).map(|i| i as i128).unwrap_or(POISON);
         let names: Vec<i128> = c.names.iter().map(|n| self.name_idx(n)).collect();
-        let rest = (0..8).find(|r| pem != POISON && !names.contains(&POISON) && self.cert(pem, *r, &names) == *c).unwrap_or(POISON);
+        let rest = (0..N_CERT_REST)
+            .find(|r| pem != POISON && !names.contains(&POISON) && self.cert(pem, *r, &names) == *c && cert_expiry(*r) == expired_at)
+            .unwrap_or(POISON);
         let mut v = vec![pem, rest, names.len() as i128];
         v.extend(names);
         v
@@ -933,13 +946,13 @@ pub fn build_request(cx: &Ctx, op: &Op) -> Result<Option<Request>, String> {
             backup: obool_of(a[5]),
         }),
         "remove_backend" => RequestType::RemoveBackend(RemoveBackend { cluster_id: cid(a[0]), backend_id: bid(a[1]), address: saddr(a[2]) }),
-        "add_cert" => RequestType::AddCertificate(AddCertificate { address: saddr(a[0]), certificate: cx.pool.cert(a[1], a[2], &a[3..]), expired_at: if a[2] & 1 == 1 { Some(7) } else { None } }),
+        "add_cert" => RequestType::AddCertificate(AddCertificate { address: saddr(a[0]), certificate: cx.pool.cert(a[1], a[2], &a[3..]), expired_at: cert_expiry(a[2]) }),
         "remove_cert" => RequestType::RemoveCertificate(RemoveCertificate { address: saddr(a[0]), fingerprint: cx.pool.fp_hex(a[1]) }),
         "replace_cert" => RequestType::ReplaceCertificate(ReplaceCertificate {
             address: saddr(a[0]),
             new_certificate: cx.pool.cert(a[1], a[2], &a[4..]),
             old_fingerprint: cx.pool.fp_hex(a[3]),
-            new_expired_at: None,
+            new_expired_at: cert_expiry(a[2]),
         }),
         "noop" => match a[0] % 3 {
             0 => RequestType::Status(Status {}),
@@ -1100,12 +1113,23 @@ pub fn entries(cx: &Ctx, s: &ConfigState) -> Vec<Entry> {
             .iter()
             .map(|(fp, c)| {
                 let mut v = vec![cx.pool.fp_tok(&fp.0)];
-                v.extend(cx.pool.cert_toks(c));
+                v.extend(cx.pool.cert_toks(c, s.certificate_expirations.get(k).and_then(|e| e.get(fp)).copied()));
                 v
             })
             .collect();
+        // an override without its certificate (or an empty bucket of overrides) has no place in the model
+        if let Some(e) = s.certificate_expirations.get(k) {
+            if e.is_empty() || e.keys().any(|fp| !m.contains_key(fp)) {
+                certs.push(vec![POISON]);
+            }
+        }
         certs.sort();
         out.push(Entry { key: vec![11, addr_idx(k)], payload: certs.into_iter().flatten().map(Tok2::N).collect() });
+    }
+    for k in s.certificate_expirations.keys() {
+        if !s.certificates.contains_key(k) {
+            out.push(Entry { key: vec![11, addr_idx(k)], payload: vec![Tok2::N(POISON)] });
+        }
     }
     out.sort();
     out
